@@ -740,6 +740,21 @@ keeps); Model/IdAssignView.lean runs the node's operations on views. -/
 
 open Buf
 
+/-- `buildInvertIndex` (what `GenSeriesID` does for a new series, and what the harness's reused-block region
+replays call by call): per tag, the key view goes to `GenTagKeyID`, then the value view to `GenTagValueID`,
+then both postings are written under the index lock -/
+theorem build_invert_order_tie :
+    C09.indexBuildInvertCalls.filter (fun c => c ∈ ["tags.HasNext", "tags.NextKey", "metaDB.GenTagKeyID", "tags.NextValue",
+      "metaDB.GenTagValueID", "lock.Lock", "inverted.put", "forward.put", "lock.Unlock"]) =
+    ["tags.HasNext", "tags.NextKey", "metaDB.GenTagKeyID", "tags.NextValue", "metaDB.GenTagValueID",
+     "lock.Lock", "inverted.put", "forward.put", "lock.Unlock"] := by decide
+
+/-- the namespace / metric-name limits are off by default (the model has no refusal of a namespace or a
+metric name: `genNSID` / `genMetricID` test `MaxNamespaces > 0` / `MaxMetrics > 0` first), and
+`getOrCreateValue` is not wrapped in a retry loop -/
+theorem ns_metric_limits_off_tie :
+    C09.defaultMaxNamespaces = 0 ∧ C09.defaultMaxMetrics = 0 ∧ C09.kvRetryLoopCalls = [] := by decide
+
 /-- the three places where a name is kept use a copying conversion (regenerated on every run) -/
 theorem name_copy_tie : currentNamesCopied = true := by decide
 
